@@ -352,9 +352,10 @@ where T: Integer, for<'x> &'x T: IntOps<T> {
 impl<T> Ord for Ratio<T>
 where T: Integer, for<'x> &'x T: IntOps<T> {
     fn cmp(&self, other: &Self) -> cmp::Ordering {
-        let l = self.to_f64();
-        let r = other.to_f64();
-        l.total_cmp(&r)
+        // denominators are positive (normalized), so compare by cross-multiplication.
+        let l = &self.numer * &other.denom;
+        let r = &other.numer * &self.denom;
+        l.cmp(&r)
     }
 }
 
